@@ -2057,6 +2057,26 @@ class collect(Stream):
                 self.metadata_cache.append(metadata)
 
     def flush(self, _=None):
+        if self.loop is not None and not self.asynchronous \
+                and not getattr(thread_state, 'asynchronous', False):
+            try:
+                on_loop = asyncio.get_running_loop() is getattr(self.loop, 'asyncio_loop', None)
+            except RuntimeError:
+                on_loop = False
+            if not on_loop:
+                # called from the user's thread on a blocking pipeline: the
+                # nodes below run on the pipeline's event loop, as for emit()
+                async def _():
+                    thread_state.asynchronous = True
+                    try:
+                        ret = self.flush()
+                        if ret is not None:
+                            await ret
+                    finally:
+                        thread_state.__dict__.pop('asynchronous', None)
+
+                sync(self.loop, _)
+                return
         out = tuple(self.cache)
         metadata = list(self.metadata_cache)
         # empty the caches before the collection is handed on: an element
